@@ -367,12 +367,21 @@ def units(tier, seed):
         for op in ("evalc", "evalg"):
             for m0 in MODES:
                 u.append(["sandwich", spec, op, m0])
+        u.append(["repeat", spec])  # the third and fourth repetition of one evaluation, and of one build
     return u
 
 
 def expand(unit):
     if unit[0] == "hashseeds":
         yield {"hashseeds": True}
+        return
+    if unit[0] == "repeat":
+        spec = unit[1]
+        for op in ("evalc", "evalg"):
+            for j in range(NFR):
+                for m0 in ("error", "silent"):
+                    yield {"h": [["cfg", m0], ["build", spec], [op, 0, j], [op, 0, j], [op, 0, j], [op, 0, j]]}
+        yield {"h": [["build", spec], ["build", spec], ["build", spec], ["evalc", 2, 0], ["evalc", 0, 0]]}
         return
     if unit[0] == "sandwich":
         spec, op, m0 = unit[1], unit[2], unit[3]
